@@ -424,6 +424,149 @@ func head(s []string, n int) []string {
 	return s
 }
 
+// Failed starts: Run/Rotate on an address that cannot be bound, or on a list whose
+// later address is unusable, returns an error - with every descriptor it created on
+// the way closed and no Unix socket file of its own left behind.
+type bootCatcher struct {
+	gnet.BuiltinEventEngine
+	eng chan gnet.Engine
+}
+
+func (b *bootCatcher) OnBoot(e gnet.Engine) gnet.Action {
+	select {
+	case b.eng <- e:
+	default:
+	}
+	return gnet.None
+}
+
+func TestC07FailedStart(t *testing.T) {
+	st := vstat.New("C07.failed_start")
+	defer st.Flush()
+	warmUp()
+	rapid.Check(t, func(t *rapid.T) {
+		nets := []string{"tcp4", "unix", "udp4"}
+		if fx.HasIPv6 {
+			nets = append(nets, "tcp6")
+		}
+		badNet := rapid.SampledFrom(nets).Draw(t, "badNet")
+		kind := rapid.SampledFrom([]string{"run-occupied", "rotate-second-occupied", "rotate-second-unparsable", "rotate-third-occupied"}).Draw(t, "kind")
+		reusePort := rapid.Bool().Draw(t, "reuseport")
+		loops := rapid.SampledFrom([]int{1, 2, 4}).Draw(t, "loops")
+		goodNet := rapid.SampledFrom([]string{"tcp4", "unix"}).Draw(t, "goodNet")
+		// the occupied address belongs to the harness
+		var occupied, badAddr string
+		var closers []func()
+		switch badNet {
+		case "unix":
+			badAddr = fx.TmpDir() + fmt.Sprintf("/occ%d.sock", time.Now().UnixNano())
+			l, err := net.Listen("unix", badAddr)
+			if err != nil {
+				t.Fatalf("VERIF-INFRA %v", err)
+			}
+			closers = append(closers, func() { l.Close() })
+		case "udp4":
+			c, err := net.ListenPacket("udp4", fx.Host("udp4")+":0")
+			if err != nil {
+				t.Fatalf("VERIF-INFRA %v", err)
+			}
+			badAddr = c.LocalAddr().String()
+			closers = append(closers, func() { c.Close() })
+		default:
+			l, err := net.Listen(badNet, fx.Host(badNet)+":0")
+			if err != nil {
+				t.Fatalf("VERIF-INFRA %v", err)
+			}
+			badAddr = l.Addr().String()
+			closers = append(closers, func() { l.Close() })
+		}
+		occupied = badNet + "://" + badAddr
+		before := fdTable() // includes the occupying socket
+		good := func() (string, string) {
+			if goodNet == "unix" {
+				p := fx.TmpDir() + fmt.Sprintf("/good%d.sock", time.Now().UnixNano())
+				return "unix://" + p, p
+			}
+			return "tcp4://" + fx.FreeAddr("tcp4"), ""
+		}
+		var addrs []string
+		var goodFiles []string
+		addGood := func() {
+			a, f := good()
+			addrs = append(addrs, a)
+			if f != "" {
+				goodFiles = append(goodFiles, f)
+			}
+		}
+		switch kind {
+		case "run-occupied":
+			addrs = []string{occupied}
+		case "rotate-second-occupied":
+			addGood()
+			addrs = append(addrs, occupied)
+		case "rotate-second-unparsable":
+			addGood()
+			addrs = append(addrs, rapid.SampledFrom([]string{"bogus://127.0.0.1:1", "tcp://127.0.0.1:notaport", "tcp4://[::1]:1", "udp://"}).Draw(t, "unparsable"))
+		default:
+			addGood()
+			addGood()
+			addrs = append(addrs, occupied)
+		}
+		h := &bootCatcher{eng: make(chan gnet.Engine, 1)}
+		opts := []gnet.Option{gnet.WithNumEventLoop(loops), gnet.WithReusePort(reusePort), gnet.WithLogger(&fx.CaptureLogger{})}
+		res := make(chan error, 1)
+		go func() {
+			if len(addrs) == 1 {
+				res <- gnet.Run(h, addrs[0], opts...)
+			} else {
+				res <- gnet.Rotate(h, addrs, opts...)
+			}
+		}()
+		var rerr error
+		select {
+		case rerr = <-res:
+		case e := <-h.eng:
+			// it started after all (the address was not really unusable): not a case
+			_ = e.Stop(context.Background())
+			<-res
+			for _, c := range closers {
+				c()
+			}
+			st.Label("started_anyway")
+			return
+		case <-time.After(10 * time.Second):
+			t.Fatalf("VERIF-KEY:fd-failed-start Run/Rotate(%v) neither returned nor booted within 10s", addrs)
+		}
+		st.Eval()
+		st.NonTrivial(vstat.Hash(kind, badNet, goodNet, reusePort, loops))
+		st.Label(kind)
+		desc := fmt.Sprintf("%s %v loops=%d reuseport=%v -> %v", kind, addrs, loops, reusePort, rerr)
+		if st.WantSample(true) {
+			st.Sample(true, desc)
+		}
+		var fails []string
+		if rerr == nil {
+			fails = append(fails, "VERIF-KEY:fd-failed-start Run/Rotate returned nil although one of its addresses cannot be used")
+		}
+		l := leaked(before)
+		for _, c := range closers {
+			c()
+		}
+		if len(l) > 0 {
+			fails = append(fails, fmt.Sprintf("VERIF-KEY:fd-leak-failed-start after the failed start returned (%v), descriptors are still open that were not open before: %v", rerr, l))
+		}
+		for _, f := range goodFiles {
+			if _, err := os.Stat(f); err == nil {
+				fails = append(fails, fmt.Sprintf("VERIF-KEY:fd-sockfile-failed-start the Unix socket file %s created by the failed start still exists", f))
+				os.Remove(f)
+			}
+		}
+		if len(fails) > 0 {
+			t.Fatalf("%s\ncase: %s", strings.Join(fails, "\n"), desc)
+		}
+	})
+}
+
 func TestMain(m *testing.M) {
 	code := m.Run()
 	fx.Cleanup()
